@@ -1,6 +1,7 @@
 package main
 
 import (
+	"go/types"
 	"fmt"
 	"go/token"
 	"strings"
@@ -235,6 +236,24 @@ func c10(r *Run) {
 		if ok {
 			r.precedes("C10.R3:freeable-waits-before-reset", "the slot is reset only after the token was obtained from any in-flight dispatch (unused() spins until do/done is over)", freeable, rs, isIns(un), nil, "unused() dominates reset()")
 			r.precedes("C10.R3:freeable-reset-before-queue", "the slot is queued for reuse only after it was reset", freeable, ap, isIns(rs), nil, "reset() dominates the queueing")
+		}
+		// reset leaves nothing of the previous owner in the slot: every callback field is cleared (the dispatch function calls
+		// whatever it finds there - a listener's OnRead left in a slot that a connection re-uses would get that connection's events)
+		{
+			st := w.NamedType("FDOperator").Underlying().(*types.Struct)
+			for i := 0; i < st.NumFields(); i++ {
+				f := st.Field(i)
+				if _, isFunc := f.Type().Underlying().(*types.Signature); !isFunc {
+					continue
+				}
+				cleared := false
+				forEachIns(ro.opReset, func(ins ssa.Instruction) {
+					if stt, ok := ins.(*ssa.Store); ok && isStoreToField(ins, "FDOperator", f.Name()) && isNilConst(stt.Val) {
+						cleared = true
+					}
+				})
+				r.ob("C10.R3:reset-clears:"+f.Name(), "reset() clears every callback of the slot: the next owner installs only the callbacks it uses, and the poller invokes whichever callbacks it finds", ro.opReset, nil, cleared, "op."+f.Name()+" = nil", false)
+			}
 		}
 		// who calls freeable: Poll.Free only; who calls unused/reset
 		for _, site := range callSitesOf(w, freeable) {
